@@ -145,8 +145,9 @@ XML_ILLEGAL = re.compile("[^\x09\x0a\x0d\x20-\ud7ff\ue000-\ufffd\U00010000-\U001
 
 
 def drop_illegal(s: str) -> str:
-    """set aside the characters that are not XML 1.0 Chars (the property allows exactly this)"""
-    return XML_ILLEGAL.sub("", s)
+    """set aside the characters that are not XML 1.0 Chars (the property allows exactly this). They are replaced by
+    U+FFFD rather than deleted: deleting could join `]]` and `>` or `&` and `amp;` into a token that is not in the page."""
+    return XML_ILLEGAL.sub("\ufffd", s)
 
 
 DOCTYPE = '<!DOCTYPE r [<!ENTITY nbsp "&#160;">]>'
@@ -628,7 +629,20 @@ def run_deprecate_streams(ctx: Ctx) -> None:
 
 # ------------------------------------------------------------------------------------------------ run / replay
 
+def probe_uri_autolink(ctx: Ctx) -> None:
+    """observation, not part of the oracle: a URI is inline markup in the reST-based docformats (standalone hyperlink), and
+    docutils' scheme list contains javascript: and data: — `see javascript:alert(1)` in a docstring becomes a link. This is
+    the docformat's markup (like *emphasis*), so the taint generator keeps URIs out of docstrings; the fact is recorded."""
+    from pydoctor.epydoc.markup import restructuredtext
+    from pydoctor.stanutils import flatten
+    from pydoctor.test import NotFoundLinker
+    errs: List[Any] = []
+    html = flatten(restructuredtext.parse_docstring("see javascript:alert(1) now", errs).to_stan(NotFoundLinker()))
+    ctx.count("probe:rst-docstring-autolinks-javascript-uri:" + ("yes" if 'href="javascript:' in html else "no"))
+
+
 def run(ctx: Ctx) -> None:
+    probe_uri_autolink(ctx)
     run_function_streams(ctx)
     run_tree_stream(ctx)
     run_deprecate_streams(ctx)
@@ -682,9 +696,11 @@ HTML_PAYLOADS = [
     "<![CDATA[<xmk{i}>]]>",
     "\U0001F600<xmk{i}/>é&",
     "<script>xmk{i}</script>",
+    "<xmk{i} onzz{i}=\"x\">y</xmk{i}>",
 ]
 # reST-flavoured payloads: only for positions that are not docstrings (in a docstring they are the author's markup)
 REST_PAYLOADS = [
+    "<a href=\"javascript:alert({i})\">MKURL{i}</a>",   # a URI is reST markup too (standalone hyperlink): not for docstrings
     "a`` `MKURL{i} <javascript:alert({i})>`_ ``b",
     " *MKEM{i}* x",
     "x *MKEM{i}* ",
@@ -693,7 +709,7 @@ REST_PAYLOADS = [
     "*MKEM{i}* y\x00",
 ]
 VALUE_KINDS = ["constant", "class-constant", "default", "annotation", "decorator-arg", "class-base-arg",
-               "deprecated-replacement", "attribute-value"]
+               "deprecated-replacement", "deprecated-package", "attribute-value"]
 DOC_KINDS = ["module-docstring", "function-docstring", "class-docstring", "attribute-docstring", "field-param",
              "field-type", "field-return", "field-raise-name", "inline-code", "inline-link"]
 
@@ -849,6 +865,9 @@ def gen_project(rng, pidx: int, docformat: str, force_deprecated: bool = False) 
     cl.append(f"    def meth(self, x={mk('default').lit()}):\n" + indent(docstring("function-docstring", True), 8) + "\n        return x")
     if rng.random() < 0.3:
         cl.append(f"    @deprecated(Version('tp', 2, 0, 0), {mk('deprecated-replacement', True).lit()})\n    def old(self):\n        '''old'''")
+    if rng.random() < 0.3:
+        # the package name is interpolated bare: deprecate refuses anything but a dotted identifier (ValueError, reported)
+        cl.append(f"    @deprecated(Version({mk('deprecated-package', True).lit()}, 2, 0, 0), 'Base')\n    def older(self):\n        '''older'''")
     lines.append("\n".join(cl))
     files = {"tp/__init__.py": "\n".join(lines) + "\n"}
     if rng.random() < 0.25:
